@@ -612,7 +612,13 @@ impl<T: RefCnt, S: Strategy<T>> ArcSwapAny<T, S> {
             let prev = self.compare_and_swap(&*cur, new);
             let swapped = ptr_eq(&*cur, &*prev);
             if swapped {
-                return Guard::into_inner(prev);
+                let prev = Guard::into_inner(prev);
+                // Arbitrary destructors (the closure may own things) run before the result goes
+                // out: a return value is not released if something panics while the function
+                // is being left.
+                drop(cur);
+                drop(f);
+                return prev;
             } else {
                 cur = prev;
             }
